@@ -119,9 +119,16 @@ class BaseRun:
         self.exempt = False          # a native cancel landed inside Condition.wait()'s shielded re-acquire
         self.enabled_at_end = []
 
+    outside = False      # create the primitive while NO event loop is running: anyio returns EventAdapter / LockAdapter
+
     def __enter__(self):
+        if self.outside:
+            self.create()            # no running loop here
+            self.pre_loop()
         self._sess = self.world.session()
         self._sess.__enter__()
+        if not self.outside:
+            self.create()
         self.setup()
         for t in range(1, self.ntasks + 1):
             p = self.world.spawn(t)
@@ -136,6 +143,9 @@ class BaseRun:
         # the finished run keeps only its recorded history (ops, outs, monitor messages, flags)
         self.world = self._sess = self.ptasks = self.tid_of = None
         self.conds = self.lock = self.ev = None
+
+    def pre_loop(self):
+        pass
 
     def run_env_handles(self):
         """Run, once, every ready handle that is not a puppet's step/wake-up (cancel-scope delivery retries)."""
@@ -176,11 +186,28 @@ class EventRun(BaseRun):
     machine = 0
     width = 3
 
-    def setup(self):
-        self.ev = self.anyio.Event()
+    def __init__(self, ntasks: int, outside: bool = False, preset: bool = False):
+        super().__init__(ntasks)
+        self.outside = outside
+        self.preset = preset and outside     # set() called before the loop starts
         self.set_called = False
         self.was_set = False
         self.st = {}          # t -> dict(kind='yield'|'waiting', cancel=bool, released=bool)
+
+    def create(self):
+        self.ev = self.anyio.Event()
+        if self.outside:
+            self.flags.add("event_created_outside_loop")
+            if type(self.ev).__name__ != "EventAdapter":
+                self.note(f"Event() without a running loop returned {type(self.ev).__name__}, not the adapter")
+
+    def pre_loop(self):
+        if self.preset:
+            self.do(1, 0)        # task 0 = the program outside the loop
+            self.flags.add("set_before_loop")
+
+    def setup(self):
+        pass
 
     def observe(self):
         return [1 if self.ev.is_set() else 0, self.ev.statistics().tasks_waiting]
@@ -200,10 +227,28 @@ class EventRun(BaseRun):
 
     def do(self, c, t, a=0, b=0):
         w = self.world
+        ev = self.ev
+        if t == 0:
+            # set() from outside any task (before the loop starts, or from a callback of the harness)
+            if c != 1:
+                raise Invalid
+            before = self.observe()
+            try:
+                ev.set()
+                out = ("ok", None)
+            except BaseException as e:  # noqa: BLE001
+                out = ("exc", e)
+            if w.loop._ready:
+                self.run_env_handles()
+            k = code_of(out)
+            after = self.observe()
+            self.ops += [c, t, 0, 0]
+            self.outs += [k] + after
+            self.monitor(c, t, k, before, after)
+            return
         p = w.puppets.get(t)
         if p is None:
             raise Invalid
-        ev = self.ev
         before = self.observe()
         if c in (0, 1):
             if not p.at_decision:
@@ -242,6 +287,11 @@ class EventRun(BaseRun):
         if c == 1:
             if k != 0:
                 self.note(f"set() by {t} ended with kind {k}")
+            if self.outside:
+                self.flags.add("adapter_set_after_first_wait" if getattr(self, "waited", False)
+                               else "adapter_set_before_first_wait")
+                if getattr(self, "waited", False) and not self.st:
+                    self.flags.add("adapter_set_after_abandoned_wait")
             self.set_called = True
             for x, e in self.st.items():
                 if e["kind"] == "waiting":
@@ -250,6 +300,7 @@ class EventRun(BaseRun):
                     if e["cancel"]:
                         self.flags.add("set_after_cancel_same_cycle")
         if c == 0:
+            self.waited = True
             if k == 0 and not self.set_called:
                 self.note(f"early wake-up: wait() returned to {t} although set() was never called")
             if k == 1:
@@ -344,14 +395,26 @@ class CondRun(BaseRun):
     machine = 1
     width = 8
 
-    def __init__(self, ntasks: int, fast: bool, nconds: int = 2):
+    def __init__(self, ntasks: int, fast: bool, nconds: int = 2, outside: bool = False, own_lock: bool = False):
         super().__init__(ntasks)
-        self.fast = fast
+        self.outside = outside
+        self.own_lock = own_lock and nconds == 1     # `Condition()` with its default lock: no direct lock ops
+        self.fast = fast and not self.own_lock
         self.nconds = max(1, min(NCONDS, nconds))
 
+    def create(self):
+        if self.own_lock:
+            self.lock = None
+            self.conds = [self.anyio.Condition()]
+        else:
+            self.lock = self.anyio.Lock(fast_acquire=self.fast)
+            self.conds = [self.anyio.Condition(self.lock) for _ in range(self.nconds)]
+        if self.outside:
+            self.flags.add("condition_created_outside_loop")
+            if self.lock is not None and type(self.lock).__name__ != "LockAdapter":
+                self.note(f"Lock() without a running loop returned {type(self.lock).__name__}, not the adapter")
+
     def setup(self):
-        self.lock = self.anyio.Lock(fast_acquire=self.fast)
-        self.conds = [self.anyio.Condition(self.lock) for _ in range(self.nconds)]
         self.holders: set[int] = set()
         self.st: dict[int, dict] = {}      # blocked tasks: kind 'acq' | 'evwait' | 'reacq'
         self.q: list[dict] = []            # the queue automaton: entries of tasks in 'evwait', arrival order
@@ -365,9 +428,16 @@ class CondRun(BaseRun):
 
     def observe(self):
         tw = [c.statistics().tasks_waiting for c in self.conds] + [0] * (NCONDS - self.nconds)
-        ls = self.lock.statistics()
+        if self.lock is not None:
+            ls = self.lock.statistics()
+            locked = self.lock.locked()
+        else:
+            ls = self.conds[0].statistics().lock_statistics
+            locked = self.conds[0].locked()
+        if bool(ls.locked) != bool(locked):
+            self.note(f"statistics().locked={ls.locked} but locked()={locked}")
         owner = self.tid_of.get(ls.owner.id, 99) if ls.owner is not None else 0
-        return tw + [1 if self.lock.locked() else 0, owner, ls.tasks_waiting]
+        return tw + [1 if locked else 0, owner, ls.tasks_waiting]
 
     def enabled(self):
         en = []
@@ -375,7 +445,8 @@ class CondRun(BaseRun):
             if p.at_decision:
                 for a in range(self.nconds):
                     en += [(0, t, a, 0), (1, t, a, 0), (2, t, a, 0), (5, t, a, None), (6, t, a, 0), (7, t, a, 0)]
-                en += [(9, t, 0, 0), (10, t, 0, 0), (11, t, 0, 0)]
+                if self.lock is not None:
+                    en += [(9, t, 0, 0), (10, t, 0, 0), (11, t, 0, 0)]
             else:
                 if self.world.runnable(p):
                     en.append((3, t, 0, 0))
@@ -387,7 +458,7 @@ class CondRun(BaseRun):
     def do(self, c, t, a=0, b=0):
         w = self.world
         p = w.puppets.get(t)
-        if p is None or not (0 <= a < self.nconds):
+        if p is None or not (0 <= a < self.nconds) or (self.lock is None and c in (9, 10, 11)):
             raise Invalid
         cond = self.conds[a]
         lock = self.lock
@@ -688,7 +759,7 @@ class CondRun(BaseRun):
                     if self.unnotified(a):
                         self.do(6, h, a, 0)
                 self.quiesce_turn += 1
-                if self.quiesce_turn % 2:
+                if self.quiesce_turn % 2 and self.lock is not None:
                     self.do(11, h)
                 else:
                     self.do(2, h, self.quiesce_turn % self.nconds, 0)
@@ -705,7 +776,7 @@ class CondRun(BaseRun):
             idle = [t for t, p in self.world.puppets.items() if p.at_decision]
             if idle:
                 self.quiesce_turn += 1
-                if self.quiesce_turn % 2:
+                if self.quiesce_turn % 2 and self.lock is not None:
                     self.do(9, idle[0])
                 else:
                     self.do(0, idle[0], self.quiesce_turn % self.nconds, 0)
@@ -722,15 +793,26 @@ class CondRun(BaseRun):
 # =====================================================================================================
 #  running, generating, shrinking
 # =====================================================================================================
-def make_run(machine: int, ntasks: int, fast: bool, nconds: int = 2):
-    return EventRun(ntasks) if machine == 0 else CondRun(ntasks, fast, nconds)
+def make_run(machine: int, ntasks: int, fast: bool, nconds: int = 2, outside=False, preset=False, own_lock=False):
+    if machine == 0:
+        return EventRun(ntasks, outside, preset)
+    return CondRun(ntasks, fast, nconds, outside, own_lock)
+
+
+def run_like(run, flat_ops, **kw):
+    """Replay `flat_ops` in the configuration of `run`."""
+    return run_script(run.machine, run.ntasks, getattr(run, "fast", False), flat_ops,
+                      nconds=getattr(run, "nconds", 1), outside=run.outside,
+                      preset=getattr(run, "preset", False), own_lock=getattr(run, "own_lock", False), **kw)
 
 
 def run_script(machine, ntasks, fast, flat_ops, quiesce=True, tolerate_invalid=False, alphabet=None,
-               skip_invalid=False, nconds=2):
+               skip_invalid=False, nconds=2, outside=False, preset=False, own_lock=False):
     """Replay a flat op list on the real implementation.  skip_invalid: ops that are not possible in the current
     state are dropped (used by the shrinker); r.script holds the ops that were really executed."""
-    with make_run(machine, ntasks, fast, nconds) as r:
+    if preset and flat_ops[:4] == [1, 0, 0, 0]:
+        flat_ops = flat_ops[4:]          # the pre-loop set() is performed by the run itself
+    with make_run(machine, ntasks, fast, nconds, outside, preset, own_lock) as r:
         r.invalid = False
         try:
             for i in range(0, len(flat_ops), 4):
@@ -799,7 +881,9 @@ def random_cond_case(rng: random.Random, nsteps: int):
     fast = rng.random() < 0.3
     ntasks = rng.choice([2, 3, 3, 4, 4, 5, 6])
     nconds = rng.choice([1, 2, 2, 2, 3])
-    with CondRun(ntasks, fast, nconds) as r:
+    outside = rng.random() < 0.3           # Lock() / Condition() created with no loop running: LockAdapter
+    own_lock = outside and nconds == 1 and rng.random() < 0.5
+    with CondRun(ntasks, fast, nconds, outside, own_lock) as r:
         walk(r, rng, nsteps, wcancel=rng.choice([0.3, 1.5, 4]), wscope=rng.choice([0.0, 0.5, 2.5]),
              misuse=rng.choice([0.03, 0.15]), wdirect=rng.choice([0.0, 0.3, 1.0]), wsib=rng.choice([0.3, 1.0]))
         r.script = list(r.ops)
@@ -862,15 +946,15 @@ def f18_case(rng: random.Random):
         return r
 
 
-def random_event_case(rng: random.Random, nsteps: int):
+def random_event_case(rng: random.Random, nsteps: int, outside=False, preset=False):
     ntasks = rng.choice([2, 3, 4, 5])
     wset = rng.choice([0.3, 1.0])
     wcancel = rng.choice([0.3, 1.5, 3])
     wscope = rng.choice([0.0, 0.5, 2.0])
-    with EventRun(ntasks) as r:
+    with EventRun(ntasks, outside, preset) as r:
         for _ in range(nsteps):
-            en = r.enabled()
-            ws = [{0: 4, 1: wset, 3: 4, 4: wcancel, 8: wscope}[c]
+            en = r.enabled() + [(1, 0, 0, 0)]
+            ws = [({0: 4, 1: wset, 3: 4, 4: wcancel, 8: wscope}[c] if t else 0.25 * wset)
                   * (0.1 if c in (4, 8) and r.st.get(t, {}).get("cancel") else 1.0) for (c, t, a, b) in en]
             c, t, a, b = rng.choices(en, ws)[0]
             r.do(c, t, a, b)
@@ -879,14 +963,31 @@ def random_event_case(rng: random.Random, nsteps: int):
         return r
 
 
-def exhaustive(machine, ntasks, depth, fast, alphabet, nconds=1):
+def adapter_twins(r: "EventRun"):
+    """The same script on an Event created BEFORE the loop runs (EventAdapter), and once more with set() called
+    before the loop starts: the adapter must be observationally identical to the backend event."""
+    out = []
+    script = list(getattr(r, "script", r.ops))
+    for preset in (False, True):
+        try:
+            out.append(run_script(0, r.ntasks, False, script, skip_invalid=True, outside=True, preset=preset))
+        except Exception as e:  # noqa: BLE001
+            bad = EventRun(r.ntasks, True, preset)
+            bad.ops, bad.outs, bad.script = [], [], []
+            bad.note(f"replaying an Event script on an Event created outside the loop crashed: {e!r}")
+            out.append(bad)
+    return out
+
+
+def exhaustive(machine, ntasks, depth, fast, alphabet, nconds=1, outside=False):
     """All op sequences up to `depth` over `alphabet(run)` (a subset of the ops the implementation enables);
     DFS by replay on the real implementation."""
     results = []
 
     def rec(prefix):
         leaf = len(prefix) // 4 >= depth
-        r = run_script(machine, ntasks, fast, prefix, quiesce=leaf, alphabet=alphabet, nconds=nconds)
+        r = run_script(machine, ntasks, fast, prefix, quiesce=leaf, alphabet=alphabet, nconds=nconds,
+                       outside=outside)
         en = r.enabled_at_end
         if leaf:
             results.append(r)
@@ -895,12 +996,12 @@ def exhaustive(machine, ntasks, depth, fast, alphabet, nconds=1):
         fresh = min(set(range(1, ntasks + 1)) - used, default=None)
         any_child = False
         for (c, t, a, b) in en:
-            if t not in used and t != fresh:
+            if t and t not in used and t != fresh:
                 continue          # symmetry: a fresh task id may only be the smallest unused one
             any_child = True
             rec(prefix + [c, t, a, b])
         if not any_child:
-            results.append(run_script(machine, ntasks, fast, prefix, quiesce=True, nconds=nconds))
+            results.append(run_script(machine, ntasks, fast, prefix, quiesce=True, nconds=nconds, outside=outside))
 
     rec([])
     return results
@@ -958,6 +1059,10 @@ def event_alphabet(r: EventRun):
     return [x for x in r.enabled() if x[0] != 8]
 
 
+def event_alphabet_outside(r: EventRun):
+    return [x for x in r.enabled() if x[0] != 8] + [(1, 0, 0, 0)]
+
+
 def shrink(run, still_bad, budget=600):
     """Drop ops (and whatever becomes impossible as a consequence) while `still_bad(run')` holds."""
     best = run
@@ -970,8 +1075,7 @@ def shrink(run, still_bad, budget=600):
             cand = ops[:i] + ops[i + 4:]
             budget -= 1
             try:
-                r2 = run_script(run.machine, run.ntasks, getattr(run, "fast", False), cand, quiesce=True,
-                                skip_invalid=True, nconds=getattr(run, "nconds", 1))
+                r2 = run_like(run, cand, quiesce=True, skip_invalid=True)
             except Exception:  # noqa: BLE001
                 r2 = None
             if r2 is not None and len(r2.script) < len(ops) and still_bad(r2):
@@ -993,6 +1097,8 @@ def replay_dict(run, ops=None, **extra):
     d = {"machine": run.machine, "machine_name": "Event" if run.machine == 0 else "Condition",
          "ntasks": run.ntasks, "nconds": getattr(run, "nconds", 1),
          "fast": bool(getattr(run, "fast", False)), "ops": ops,
+         "created_outside_loop": bool(run.outside), "set_before_loop": bool(getattr(run, "preset", False)),
+         "own_lock": bool(getattr(run, "own_lock", False)),
          "ops_readable": readable_ops(run.machine, ops),
          "how_to_replay": "bin/replay <this file>   or   PYTHONPATH=/repo/src:/verif/harness python -c \"import c11; r=c11.run_script(machine, ntasks, fast, ops, nconds=nconds); print(r.mon)\"  (after the listed ops the harness drives the tasks to quiescence)"}
     d.update(extra)
@@ -1006,10 +1112,97 @@ def load_corpus():
         for f in sorted(d.glob("*.json")):
             c = json.loads(f.read_text())
             r = run_script(c["machine"], c["ntasks"], bool(c.get("fast", False)), c["ops"], tolerate_invalid=True,
-                           nconds=c.get("nconds", 2))
+                           nconds=c.get("nconds", 2), outside=c.get("created_outside_loop", False),
+                   preset=c.get("set_before_loop", False), own_lock=c.get("own_lock", False))
             r.corpus_name = f.name
             runs.append(r)
     return runs
+
+
+ADAPTERS = {
+    # class -> (attribute holding the backend object once it exists, the property that creates it, method -> target)
+    "EventAdapter": ("_internal_event", "_event",
+                     {"set": "set", "is_set": "is_set", "wait": "wait", "statistics": "statistics"}),
+    "LockAdapter": ("_internal_lock", "_lock",
+                    {"acquire": "acquire", "acquire_nowait": "acquire_nowait", "release": "release",
+                     "locked": "locked", "statistics": "statistics", "__aenter__": "acquire",
+                     "__aexit__": "release"}),
+}
+
+
+def adapter_delegation_check(src_root=None) -> list[str]:
+    """Syntactic tie component for the objects anyio hands out when no event loop is running: once the backend
+    object exists (`_internal_x is not None`) every public method of the adapter must consist of exactly one call
+    of the corresponding method on the backend object (through `_internal_x` or the creating property) - no
+    adapter-side state may be read or written on that path.  Fail closed: any other shape is reported."""
+    import ast
+
+    path = (core.REPO if src_root is None else src_root) / "src" / "anyio" / "_core" / "_synchronization.py"
+    try:
+        tree = ast.parse(path.read_text())
+    except Exception as e:  # noqa: BLE001
+        return [f"cannot parse {path}: {e!r}"]
+    problems = []
+    classes = {n.name: n for n in tree.body if isinstance(n, ast.ClassDef)}
+
+    def is_self_attr(node, names):
+        return (isinstance(node, ast.Attribute) and isinstance(node.value, ast.Name) and node.value.id == "self"
+                and node.attr in names)
+
+    for cname, (internal, prop, methods) in ADAPTERS.items():
+        cls = classes.get(cname)
+        if cls is None:
+            problems.append(f"class {cname} not found")
+            continue
+        funcs = {n.name: n for n in cls.body if isinstance(n, (ast.FunctionDef, ast.AsyncFunctionDef))}
+        public = {n for n in funcs if n not in ("__new__", "__init__", prop)}
+        for extra in sorted(public - set(methods)):
+            problems.append(f"{cname}.{extra}: method not covered by the delegation table")
+        for m, target in methods.items():
+            fn = funcs.get(m)
+            if fn is None:
+                problems.append(f"{cname}.{m}: missing")
+                continue
+
+            def live_path(stmts):
+                """statements executed when the backend object exists; None = shape not understood"""
+                out = []
+                for st in stmts:
+                    if isinstance(st, ast.Expr) and isinstance(st.value, ast.Constant):
+                        continue                                  # docstring
+                    if isinstance(st, ast.If):
+                        t = st.test
+                        if (isinstance(t, ast.Compare) and len(t.ops) == 1 and is_self_attr(t.left, {internal})
+                                and isinstance(t.comparators[0], ast.Constant) and t.comparators[0].value is None):
+                            branch = st.orelse if isinstance(t.ops[0], ast.Is) else (
+                                st.body if isinstance(t.ops[0], ast.IsNot) else None)
+                            if branch is None:
+                                return None
+                            sub = live_path(branch)
+                            if sub is None:
+                                return None
+                            out += sub
+                            if sub and isinstance(branch[-1], ast.Return):
+                                return out
+                            continue
+                        return None
+                    out.append(st)
+                    if isinstance(st, ast.Return):
+                        return out
+                return out
+
+            path_stmts = live_path(fn.body)
+            ok = False
+            if path_stmts is not None and len(path_stmts) == 1 and isinstance(path_stmts[0], (ast.Expr, ast.Return)):
+                v = path_stmts[0].value
+                if isinstance(v, ast.Await):
+                    v = v.value
+                ok = (isinstance(v, ast.Call) and isinstance(v.func, ast.Attribute) and v.func.attr == target
+                      and is_self_attr(v.func.value, {internal, prop}))
+            if not ok:
+                problems.append(f"{cname}.{m}: once {internal} exists the method is not a single call of "
+                                f"self.{prop}.{target}(...) (line {fn.lineno})")
+    return problems
 
 
 def replay(path) -> int:
@@ -1021,7 +1214,8 @@ def replay(path) -> int:
         return 1
     c = d.get("case") if d.get("kind") == "tie" and d.get("case") else d
     r = run_script(c["machine"], c["ntasks"], bool(c.get("fast", False)), c["ops"], tolerate_invalid=True,
-                   nconds=c.get("nconds", 2))
+                   nconds=c.get("nconds", 2), outside=c.get("created_outside_loop", False),
+                   preset=c.get("set_before_loop", False), own_lock=c.get("own_lock", False))
     exe = core.build_driver("eventcond", "EventCond")
     m = core.run_driver(exe, [r.case()])[0]
     w = r.width
@@ -1043,6 +1237,7 @@ TIE_HELPERS = {"notify_loop_sim": "cond_notify_entry (the for-range loop)", "not
 def check(tier: str) -> int:
     rep = core.Report("C11", tier)
     rep.assumptions = core.TRUSTED_BASE_COMMON + [
+        "objects created while NO event loop is running (EventAdapter; Condition over a LockAdapter): every Event script is replayed on an adapter (also with set() before the loop starts), 30% of the Condition cases use a Lock()/Condition() created outside the loop; the adapters must be observationally identical to the backend objects (same model, is_set()/statistics()/locked() compared at every step) + a syntactic delegation check of the two adapter classes",
         "model prims/EventCond.v hand-written from _asyncio.py:1853-1875 (Event), CPython 3.12.1 asyncio/locks.py:155-215, _core/_synchronization.py class Condition (HEAD: holder test asks the lock) and embedding prims/Lock.v; any number of Conditions on ONE shared Lock plus direct lock.acquire/acquire_nowait/release by any task",
         "tie T: tools/translate_cond.py (python ast -> coq/prims/CondGen.v; fail-closed tables in the script) regenerates the segments of Event.set/is_set/wait and Condition._check_acquired/acquire/acquire_nowait/release/locked/notify/notify_all/wait (cut at its awaits, the finally block copied into both continuations) on every run; CondGenEq.v proves that interpreting them (prims/CondImp.v) is estep (exactly) and cstep at variant 0 on everything the code reads and writes (the shared Lock machine, the condition's own queue, flags and futures of the one-shot events; pointwise on function-valued fields), with the whole-machine theorems cstep_runs_generated / grun_iff_creach. Trusted in it: the translator's tables and its expansion of try/except/finally, CPython await/exception semantics at the cut points (CondImp.dispatch: which continuation runs; the exception raised at event.wait() is CancelledError; locals persist), asyncio.Event and the one-shot anyio Event as modelled, the Lock reached through Lock.step (its code is tied by C09's tie T), deque.remove on an absent element not modelled (an unset waiting event is always queued: CInv), checkpoint_if_cancelled() at the start of wait() read as a no-op in a live scope. The ghost fields of cst are not tied (history variables never read by the code). Not the only tie: the same model is co-simulated against the running code below",
         "cancellation: native Task.cancel() on blocked tasks (both while the awaited future is pending and after it was resolved) and AnyIO CancelScope.cancel() of a scope wrapped around the blocking call",
@@ -1080,15 +1275,22 @@ def check(tier: str) -> int:
     for _ in range(n_f18):
         runs.append(f18_case(rng))
     for _ in range(n_event):
-        runs.append(random_event_case(rng, rng.choice([5, 8, 12, 20, 30])))
+        ev = random_event_case(rng, rng.choice([5, 8, 12, 20, 30]))
+        runs.append(ev)
+        runs += adapter_twins(ev)
     if quick:
         ex = (exhaustive(1, 2, 6, False, cond_alphabet) + exhaustive(1, 2, 5, False, shared_alphabet, nconds=2)
-              + exhaustive(0, 2, 5, False, event_alphabet))
+              + exhaustive(0, 2, 5, False, event_alphabet)
+              + exhaustive(0, 2, 4, False, event_alphabet_outside, outside=True)
+              + exhaustive(1, 2, 5, False, cond_alphabet, outside=True))
     else:
         ex = (exhaustive(1, 3, 8, False, cond_alphabet) + exhaustive(1, 2, 8, True, cond_alphabet)
               + exhaustive(1, 3, 6, False, shared_alphabet, nconds=2)
               + exhaustive(1, 2, 7, True, shared_alphabet, nconds=2)
-              + exhaustive(0, 3, 6, False, event_alphabet))
+              + exhaustive(0, 3, 6, False, event_alphabet)
+              + exhaustive(0, 3, 5, False, event_alphabet_outside, outside=True)
+              + exhaustive(1, 2, 7, False, cond_alphabet, outside=True)
+              + exhaustive(1, 2, 6, False, shared_alphabet, nconds=2, outside=True))
     n_ex = len(ex)
     runs += ex
 
@@ -1139,6 +1341,12 @@ def check(tier: str) -> int:
         tie_broken.append("correspondence EventCond.run_case vs anyio.Event/anyio.Condition")
     if rejected:
         tie_broken.append(f"model rejected {rejected} ops the implementation performed")
+    adapter_problems = adapter_delegation_check()
+    rep.coverage["adapter_delegation_check"] = {
+        "what": "syntactic (python ast, fail closed): once the backend object exists every method of EventAdapter / LockAdapter is a single call of the same method on it",
+        "problems": adapter_problems}
+    if adapter_problems:
+        tie_broken.append("adapter delegation: " + "; ".join(adapter_problems))
     if not vm_ok and not disagreements:
         tie_broken.append("vm_compute sample disagrees with extracted model")
     if tie_broken and not monitor_hits:
@@ -1219,6 +1427,8 @@ def check(tier: str) -> int:
             "scope_cancel_in_reacquire", "native_cancel_in_reacquire",
             "second_condition", "direct_lock_op", "holder_via_other_route", "released_via_other_route",
             "notify_with_waiters_on_sibling", "late_handover",
+            "event_created_outside_loop", "set_before_loop", "adapter_set_before_first_wait",
+            "adapter_set_after_first_wait", "adapter_set_after_abandoned_wait", "condition_created_outside_loop",
             "set_with_waiters", "wait_on_set_event", "wait_on_unset_event", "cancel_before_set", "cancel_after_set",
             "set_after_cancel_same_cycle", "scope_cancel_effective", "scope_cancel_after_release"]
     for n in need:
